@@ -17,7 +17,7 @@ def modelVerify (s : Sig) (op : String) : Option String :=
     match level.toNat? with
     | some lv =>
       let x : VCtx := ⟨if doc == "-" then none else ofHex doc, lv⟩
-      if pol == "empty" then none
+      if pol == "empty" || pol == "calin" then none
       else
         let vi := verifyWith Hreal Gen.policy_internal s x
         if isOKb vi && pol != "internal" then none
